@@ -1,6 +1,7 @@
 package main
 
 import (
+	"reflect"
 	"encoding/json"
 	"math/rand"
 	"os"
@@ -109,7 +110,46 @@ func safeReadMsg(rw *message.ReadWriter, id uint32, payload []byte, v2 bool) (va
 	if err != nil {
 		return nil, false, false, false, false
 	}
-	return valsOf(m), true, false, false, false
+	vals = valsOf(m)
+	// the caller owns what it was given: it edits the message, then the same payload is decoded once more
+	// (a repeated heartbeat) and must give the same values again
+	scribble(reflect.ValueOf(m).Elem())
+	m2, err2 := rw.Read(&message.MessageRaw{ID: id, Payload: append([]byte{}, payload...)}, v2)
+	if err2 != nil || !reflect.DeepEqual(valsOf(m2), vals) {
+		decodeAgainDiffers = true
+	}
+	return vals, true, false, false, false
+}
+
+// decodeAgainDiffers is set when decoding the same payload a second time, after the first result was edited by the
+// caller, did not give the first values again; read and cleared by the probe that records the decode
+var decodeAgainDiffers bool
+
+func takeAgainDiffers() bool {
+	d := decodeAgainDiffers
+	decodeAgainDiffers = false
+	return d
+}
+
+func scribble(v reflect.Value) {
+	switch v.Kind() {
+	case reflect.Struct:
+		for i := 0; i < v.NumField(); i++ {
+			scribble(v.Field(i))
+		}
+	case reflect.Array:
+		for i := 0; i < v.Len(); i++ {
+			scribble(v.Index(i))
+		}
+	case reflect.String:
+		v.SetString("zq")
+	case reflect.Float32, reflect.Float64:
+		v.SetFloat(-7.25)
+	case reflect.Int8, reflect.Int16, reflect.Int32, reflect.Int64, reflect.Int:
+		v.SetInt(int64(0x5A))
+	case reflect.Uint8, reflect.Uint16, reflect.Uint32, reflect.Uint64, reflect.Uint:
+		v.SetUint(0x5B)
+	}
 }
 
 func (d *msgDriver) enc(di int, vals [][]B, v2 bool, tag string) {
@@ -125,6 +165,7 @@ func (d *msgDriver) enc(di int, vals [][]B, v2 bool, tag string) {
 	} else {
 		r["dec"], r["dec_ok"], r["dec_panic"], r["src_mod"], r["tail_mod"] = [][]B{}, false, false, false, false
 	}
+	r["again_differs"] = takeAgainDiffers()
 	d.rec.Put(r)
 }
 
@@ -134,7 +175,7 @@ func (d *msgDriver) dec(di int, payload B, v2 bool, tag string) {
 		dv = [][]B{}
 	}
 	d.rec.Put(M{"e": "DEC", "d": di + 1, "v2": v2, "in": payload, "ok": ok, "vals": dv, "panic": pan,
-		"src_mod": sm, "tail_mod": tm, "tag": tag})
+		"src_mod": sm, "tail_mod": tm, "tag": tag, "again_differs": takeAgainDiffers()})
 }
 
 func boundaryElem(r *rand.Rand, size int) B {
